@@ -10,13 +10,16 @@ import (
 	"context"
 	"encoding/json"
 	"fmt"
+	"io"
 	"sort"
+	"strconv"
 	"sync"
 	"sync/atomic"
 	"time"
 
 	"github.com/anishathalye/porcupine"
 	"k3l.io/go-eigentrust/pkg/api/openapi"
+	trustmatrixpb "k3l.io/go-eigentrust/pkg/api/pb/trustmatrix"
 )
 
 type kvIn struct {
@@ -455,4 +458,292 @@ func runConcCompute(h *H, prop string) {
 	if note != "" {
 		h.notes["compute_vs_merge"] = note
 	}
+}
+
+// ---------------------------------------------------------------------------------------------
+// C16, concurrent clients on the gRPC trust-matrix service: recorded histories must be
+// linearizable w.r.t. the sequential overlay/timestamp specification.
+
+type gmIn struct {
+	op    string // create update get flush delete
+	id    string
+	ts    uint64
+	cells map[[2]int]float64
+}
+type gmOut struct {
+	code string
+	ts   uint64
+	body string
+}
+type gmState struct {
+	cells map[[2]int]float64
+	ts    uint64
+}
+
+var gmModel = porcupine.Model{
+	Partition: func(history []porcupine.Operation) [][]porcupine.Operation {
+		m := map[string][]porcupine.Operation{}
+		for _, op := range history {
+			id := op.Input.(gmIn).id
+			m[id] = append(m[id], op)
+		}
+		var out [][]porcupine.Operation
+		for _, v := range m {
+			out = append(out, v)
+		}
+		return out
+	},
+	Init: func() interface{} { return (*gmState)(nil) },
+	Step: func(state, input, output interface{}) (bool, interface{}) {
+		st := state.(*gmState)
+		in := input.(gmIn)
+		out := output.(gmOut)
+		switch in.op {
+		case "create":
+			if st != nil {
+				return out.code == "unknown", st
+			}
+			return out.code == "ok", &gmState{cells: map[[2]int]float64{}}
+		case "get":
+			if st == nil {
+				return out.code == "notfound", st
+			}
+			return out.code == "ok" && out.ts == st.ts && out.body == renderMat(0, st.cells), st
+		case "flush":
+			if st == nil {
+				return out.code == "notfound", st
+			}
+			return out.code == "ok", &gmState{cells: map[[2]int]float64{}}
+		case "delete":
+			if st == nil {
+				return out.code == "notfound", st
+			}
+			return out.code == "ok", (*gmState)(nil)
+		case "update":
+			if st == nil {
+				return out.code == "notfound", st
+			}
+			nc := map[[2]int]float64{}
+			for k, v := range st.cells {
+				nc[k] = v
+			}
+			for k, v := range in.cells {
+				if v == 0 {
+					delete(nc, k)
+				} else {
+					nc[k] = v
+				}
+			}
+			ts := st.ts
+			if in.ts > ts {
+				ts = in.ts
+			}
+			return out.code == "ok", &gmState{cells: nc, ts: ts}
+		}
+		return false, st
+	},
+	Equal: func(a, b interface{}) bool {
+		x, y := a.(*gmState), b.(*gmState)
+		if x == nil || y == nil {
+			return x == y
+		}
+		return x.ts == y.ts && renderMat(0, x.cells) == renderMat(0, y.cells)
+	},
+}
+
+func runConcGrpc(h *H, prop string) {
+	g := h.g
+	rounds := h.budget(150, 3000)
+	bad, unknown := 0, 0
+	var firstBad string
+	for r := 0; r < rounds; r++ {
+		env := newGrpcEnv()
+		ids := []string{"x", "y"}
+		var ops []porcupine.Operation
+		var mu sync.Mutex
+		t0 := time.Now()
+		ctxB := context.Background()
+		if g.intn(4) != 0 {
+			call := time.Since(t0).Nanoseconds()
+			_, err := env.tm.Create(ctxB, &trustmatrixpb.CreateRequest{Id: "x"})
+			ops = append(ops, porcupine.Operation{ClientId: 0, Input: gmIn{op: "create", id: "x"}, Call: call,
+				Output: gmOut{code: codeTok(err)}, Return: time.Since(t0).Nanoseconds()})
+		}
+		nclients := g.intn(4) + 2
+		type planned struct{ in gmIn }
+		plans := make([][]planned, nclients)
+		for c := range plans {
+			for k := 0; k < g.intn(3)+1; k++ {
+				id := ids[0]
+				if g.intn(6) == 0 {
+					id = ids[1]
+				}
+				in := gmIn{op: g.pick("update", "update", "get", "get", "flush", "delete", "create"), id: id}
+				if in.op == "update" {
+					in.ts = uint64(g.intn(40))
+					in.cells = map[[2]int]float64{}
+					for e := 0; e < g.intn(3)+1; e++ {
+						v := float64(g.intn(8))
+						in.cells[[2]int{g.intn(3), g.intn(3)}] = v
+					}
+				}
+				plans[c] = append(plans[c], planned{in})
+			}
+		}
+		var wg sync.WaitGroup
+		start := make(chan struct{})
+		for c := range plans {
+			wg.Add(1)
+			go func(c int) {
+				defer wg.Done()
+				<-start
+				for _, p := range plans[c] {
+					ctx, cancel := context.WithTimeout(ctxB, 20*time.Second)
+					call := time.Since(t0).Nanoseconds()
+					out := gmOut{}
+					switch p.in.op {
+					case "create":
+						_, err := env.tm.Create(ctx, &trustmatrixpb.CreateRequest{Id: p.in.id})
+						out.code = codeTok(err)
+					case "flush":
+						_, err := env.tm.Flush(ctx, &trustmatrixpb.FlushRequest{Id: p.in.id})
+						out.code = codeTok(err)
+					case "delete":
+						_, err := env.tm.Delete(ctx, &trustmatrixpb.DeleteRequest{Id: p.in.id})
+						out.code = codeTok(err)
+					case "update":
+						id := p.in.id
+						req := &trustmatrixpb.UpdateRequest{Header: &trustmatrixpb.Header{Id: &id, TimestampQwords: []uint64{p.in.ts}}}
+						for k, v := range p.in.cells {
+							req.Entries = append(req.Entries, &trustmatrixpb.Entry{Truster: strconv.Itoa(k[0]), Trustee: strconv.Itoa(k[1]), Value: v})
+						}
+						_, err := env.tm.Update(ctx, req)
+						out.code = codeTok(err)
+					case "get":
+						stream, err := env.tm.Get(ctx, &trustmatrixpb.GetRequest{Id: p.in.id})
+						cells := map[[2]int]float64{}
+						if err == nil {
+							for {
+								var part *trustmatrixpb.GetResponse
+								part, err = stream.Recv()
+								if err == io.EOF {
+									err = nil
+									break
+								}
+								if err != nil {
+									break
+								}
+								if hh := part.GetHeader(); hh != nil {
+									if len(hh.TimestampQwords) == 1 {
+										out.ts = hh.TimestampQwords[0]
+									} else if len(hh.TimestampQwords) > 1 {
+										out.ts = ^uint64(0)
+									}
+								} else if e := part.GetEntry(); e != nil {
+									i, _ := strconv.Atoi(e.Truster)
+									j, _ := strconv.Atoi(e.Trustee)
+									cells[[2]int{i, j}] = e.Value
+								}
+							}
+						}
+						out.code = codeTok(err)
+						out.body = renderMat(0, cells)
+					}
+					cancel()
+					ret := time.Since(t0).Nanoseconds()
+					mu.Lock()
+					ops = append(ops, porcupine.Operation{ClientId: c + 1, Input: p.in, Call: call, Output: out, Return: ret})
+					mu.Unlock()
+				}
+			}(c)
+		}
+		close(start)
+		wg.Wait()
+		env.close()
+		switch porcupine.CheckOperationsTimeout(gmModel, ops, 5*time.Second) {
+		case porcupine.Illegal:
+			bad++
+			if firstBad == "" {
+				for _, o := range ops {
+					in := o.Input.(gmIn)
+					firstBad += fmt.Sprintf("[c%d %s %s ts=%d -> %s @%d..%d] ", o.ClientId, in.op, in.id, in.ts, o.Output.(gmOut).code, o.Call, o.Return)
+				}
+			}
+		case porcupine.Unknown:
+			unknown++
+		}
+	}
+	h.emit(h.line(prop, "conc").Str("grpc-trustmatrix").Int(rounds).Bar().Int(bad).Int(unknown))
+	if firstBad != "" {
+		h.notes["first_nonlinearizable_history"] = firstBad
+	}
+}
+
+// A PUT whose body is a STORED reference is two separate instants (copy of the referenced matrix,
+// then Swap): racing with a DELETE of the referenced id it can answer 201 although, in every
+// sequential order, it could only answer 200 (id still there) or 400 (already deleted).
+// Proved for the step model as C13b.stored_ref_put_not_linearizable; this is its replay on the real code.
+func runConcStoredBody(h *H, prop string) {
+	rounds := h.budget(150, 2000)
+	env := newOapiEnv()
+	ctx := context.Background()
+	n := 220
+	big := openapi.InlineTrustMatrix{Scheme: "inline", Size: n}
+	for i := 0; i < n; i++ {
+		for j := 0; j < n; j++ {
+			big.Entries = append(big.Entries, openapi.InlineTrustMatrixEntry{I: i, J: j, V: 1})
+		}
+	}
+	inlineBody := func() *openapi.TrustMatrixRef {
+		var ref openapi.TrustMatrixRef
+		_ = ref.FromInlineTrustMatrix(big)
+		ref.Scheme = "inline"
+		return &ref
+	}
+	storedBody := func(id string) *openapi.TrustMatrixRef {
+		var ref openapi.TrustMatrixRef
+		_ = ref.FromStoredTrustMatrix(openapi.StoredTrustMatrix{Scheme: "stored", Id: id})
+		ref.Scheme = "stored"
+		return &ref
+	}
+	bad := 0
+	for r := 0; r < rounds; r++ {
+		id := fmt.Sprintf("sb%d", r)
+		if _, err := env.srv.UpdateLocalTrust(ctx, openapi.UpdateLocalTrustRequestObject{Id: id, Body: inlineBody()}); err != nil {
+			continue
+		}
+		var wg sync.WaitGroup
+		var putCreated, deleted bool
+		var gate atomic.Bool
+		wg.Add(2)
+		go func() {
+			defer wg.Done()
+			for !gate.Load() {
+			}
+			resp, err := env.srv.UpdateLocalTrust(ctx, openapi.UpdateLocalTrustRequestObject{Id: id, Body: storedBody(id)})
+			if err == nil {
+				_, putCreated = resp.(openapi.UpdateLocalTrust201Response)
+			}
+		}()
+		go func() {
+			defer wg.Done()
+			for !gate.Load() {
+			}
+			time.Sleep(time.Duration(r%40) * 20 * time.Microsecond)
+			resp, err := env.srv.DeleteLocalTrust(ctx, openapi.DeleteLocalTrustRequestObject{Id: id})
+			if err == nil {
+				_, deleted = resp.(openapi.DeleteLocalTrust204Response)
+			}
+		}()
+		gate.Store(true)
+		wg.Wait()
+		if putCreated && deleted {
+			bad++
+		}
+		env.srv.DeleteLocalTrust(ctx, openapi.DeleteLocalTrustRequestObject{Id: id})
+	}
+	w := &W{}
+	w.Str(fmt.Sprintf("%s-%d:C13/UpdateLocalTrust/stored-body-put-races-delete", prop, h.n+1)).Str(prop).Str("conc")
+	h.n++
+	h.emit(w.Str("oapi-stored-body-put-vs-delete").Int(rounds).Bar().Int(bad).Int(0))
 }
